@@ -38,7 +38,10 @@ Inductive rval : Type :=
 | RNull
 | RStruct (data : list Z) (ptrs : list rval)
 | RPrim (w : Z) (xs : list Z)   (* list of w-bit elements (w = 0 void, 1 bit, 8, 16, 32, 64), raw unsigned *)
-| RPtrs (ps : list rval)        (* list of pointers, or of structs (composite) *)
+| RPtrs (ps : list rval)        (* list of pointers (elements of a struct list may also be given this way) *)
+| RComp (es : list rval)        (* composite list: elements are RStruct, all of one size.  Every list
+                                   type may be encoded this way (list upgrade): a primitive element is
+                                   the first bytes of the data section, a pointer element the first pointer *)
 | RCap.
 
 Inductive fkind : Type :=
@@ -212,16 +215,37 @@ Definition prim_elems (w : Z) (l : rval) : res (list Z) :=
   match l with
   | RPrim w' xs => if (w' =? w) || (length xs =? 0)%nat then Ok xs else Err EIllTyped
   | RPtrs ps => if (length ps =? 0)%nat then Ok [] else Err EIllTyped
+  | RComp es =>
+    (* primitiveElem on a composite list: the element's data section from its start (0 when the
+       section is shorter: At returns 0 on a size mismatch); BitList.At is false on a non-bit list *)
+    if w =? 1 then Ok (map (fun _ => 0) es)
+    else Ok (map (fun e => get_le (fst (as_struct e)) 0 (w / 8)) es)
   | _ => Ok []                                            (* not a list: List{} has Len() = 0 *)
+  end.
+(* PointerList.At on a composite list: the first pointer of every element *)
+Fixpoint first_ptrs (es : list rval) : option (list rval) :=
+  match es with
+  | [] => Some []
+  | RStruct _ (p :: _) :: r => match first_ptrs r with Some ps => Some (p :: ps) | None => None end
+  | _ => None                                             (* no pointer section: "mismatched list element size" *)
   end.
 Definition ptr_elems (l : rval) : res (list rval) :=
   match l with
   | RPtrs ps => Ok ps
+  | RComp es => match first_ptrs es with Some ps => Ok ps | None => Err EIllTyped end
+  | RPrim _ xs => if (length xs =? 0)%nat then Ok [] else Err EIllTyped
+  | _ => Ok []
+  end.
+(* List.Struct(i) for every i *)
+Definition struct_elems (l : rval) : res (list rval) :=
+  match l with
+  | RPtrs ps => Ok ps
+  | RComp es => Ok es
   | RPrim _ xs => if (length xs =? 0)%nat then Ok [] else Err EIllTyped
   | _ => Ok []
   end.
 Definition list_len (l : rval) : nat :=
-  match l with RPrim _ xs => length xs | RPtrs ps => length ps | _ => O end.
+  match l with RPrim _ xs => length xs | RPtrs ps => length ps | RComp es => length es | _ => O end.
 
 Definition lift {A} (r : res A) : M A :=
   fun st => match r with Ok a => Ok (a, st) | Err e => Err e | OutOfFuel => OutOfFuel end.
@@ -306,7 +330,7 @@ with shown_list (ffmt : Z -> Z -> list Z) (c : cfg) (sc : schema) (fuel : nat) (
     | TData => ps <- lift (ptr_elems l) ;; ret (TvList (tvals_of (map (fun p => TvStr (data_bytes p)) ps)))
     | TText => ps <- lift (ptr_elems l) ;; ret (TvList (tvals_of (map (fun p => TvStr (text_bytes p)) ps)))
     | TStruct sid =>
-      ps <- lift (ptr_elems l) ;;
+      ps <- lift (struct_elems l) ;;
       vs <- collect_elems (fun p => let (d, pp) := as_struct p in shown_struct ffmt c sc f exp sid d pp) ps ;;
       ret (TvList vs)
     | TList ecost ee =>
@@ -385,6 +409,16 @@ Definition encode (ffmt : Z -> Z -> list Z) (c : cfg) (sc : schema) (fuel : nat)
   | OutOfFuel => (OutOfFuel, st)
   end.
 
+(* Encoder.EncodeList(typeID, l): marshalList with the element type struct typeID (the Type
+   struct is built in a new message on every call: nothing of it is kept in the encoder) *)
+Definition encode_list (ffmt : Z -> Z -> list Z) (c : cfg) (sc : schema) (fuel : nat) (id : Z) (l : rval)
+    (st : cache) : res (list Z) * cache :=
+  match shown_list ffmt c sc fuel [] (TStruct id) l st with
+  | Ok (t, st') => (Ok (print t), st')
+  | Err e => (Err e, Some 0)
+  | OutOfFuel => (OutOfFuel, st)
+  end.
+
 (* the value tree shown by Encode on a fresh encoder (the field values the text displays) *)
 Definition shown (ffmt : Z -> Z -> list Z) (c : cfg) (sc : schema) (fuel : nat) (id : Z) (v : rval) : res tval :=
   let (d, ps) := as_struct v in
@@ -409,3 +443,57 @@ Fixpoint run_history (ffmt : Z -> Z -> list Z) (c : cfg) (sc : schema) (fuel : n
 Definition encode_again (ffmt : Z -> Z -> list Z) (c : cfg) (sc : schema) (fuel : nat) (id : Z) (v : rval)
     (n : N) (st : cache) : cache :=
   N.iter n (fun s => snd (encode ffmt c sc fuel id v s)) st.
+
+(* ------------------------------------------------------------------ Encoder.UseRegistry *)
+
+(* An encoder with a registry: the registry it is pointed at, and the cached nodes - which
+   schema they were read from and the remaining budget of that schema message.
+   nodemap.Map.UseRegistry replaces the registry and drops the cached nodes ([inval] = true, the
+   code as it is); with [inval] = false the nodes cached from the old registry stay in use
+   (the variant in which the map is kept).  In that variant ids missing from the stale cache
+   are reported not-found by the model (the Go code would load them from the new registry on
+   top of the stale entries); the variant exists only for the refutation. *)
+Record enc_state : Type := mkEnc { es_reg : schema; es_cache : option (schema * Z) }.
+
+Definition enc_init (reg : schema) : enc_state := mkEnc reg None.
+
+Definition use_registry (inval : bool) (reg : schema) (st : enc_state) : enc_state :=
+  mkEnc reg (if inval then None else es_cache st).
+
+Definition with_schema (sc : schema) (c : cache) : option (schema * Z) :=
+  match c with Some b => Some (sc, b) | None => None end.
+
+(* an operation of the encoder, given as a function of the schema the walk sees and the cache *)
+Definition apply_e (f : schema -> cache -> res (list Z) * cache) (st : enc_state) : res (list Z) * enc_state :=
+  match es_cache st with
+  | Some (sc', b) => let (r, c') := f sc' (Some b) in (r, mkEnc (es_reg st) (with_schema sc' c'))
+  | None => let (r, c') := f (es_reg st) None in (r, mkEnc (es_reg st) (with_schema (es_reg st) c'))
+  end.
+
+Definition encode_e (ffmt : Z -> Z -> list Z) (c : cfg) (fuel : nat) (id : Z) (v : rval)
+    (st : enc_state) : res (list Z) * enc_state :=
+  apply_e (fun sc => encode ffmt c sc fuel id v) st.
+
+Definition encode_list_e (ffmt : Z -> Z -> list Z) (c : cfg) (fuel : nat) (id : Z) (l : rval)
+    (st : enc_state) : res (list Z) * enc_state :=
+  apply_e (fun sc => encode_list ffmt c sc fuel id l) st.
+
+Inductive enc_op : Type :=
+| OpEncode (id : Z) (v : rval)
+| OpEncodeList (id : Z) (l : rval)
+| OpUse (reg : schema).
+
+Definition enc_step (ffmt : Z -> Z -> list Z) (c : cfg) (inval : bool) (fuel : nat) (o : enc_op)
+    (st : enc_state) : enc_state :=
+  match o with
+  | OpEncode id v => snd (encode_e ffmt c fuel id v st)
+  | OpEncodeList id l => snd (encode_list_e ffmt c fuel id l st)
+  | OpUse reg => use_registry inval reg st
+  end.
+
+Fixpoint run_ops (ffmt : Z -> Z -> list Z) (c : cfg) (inval : bool) (fuel : nat) (ops : list enc_op)
+    (st : enc_state) : enc_state :=
+  match ops with
+  | [] => st
+  | o :: r => run_ops ffmt c inval fuel r (enc_step ffmt c inval fuel o st)
+  end.
